@@ -203,7 +203,7 @@ def run_case(spec):
                 fails.append(('mk_sorted/mk_stable', f'order {first[1]}, stable chronological order is {exp}'))
     steps_lit = []
     has_fij = False
-    if r0[0] == 'Ok':
+    if r0[0] == 'Ok' and timed:       # (an accepted untimed shape is already a failure; its track cannot be observed)
         cur = r0[1]
         for op in spec['ops']:
             kind = op[0]
@@ -532,6 +532,14 @@ def main():
     for _ in range(40 if quick else 400):
         items = gen_items(rng, rng.randint(1, 8), allow_nodt=True)
         specs.append(('nodt', {'items': items, 'ops': [['conv', 1]]}))
+    # every small list with one untimed shape at every position (a single untimed shape included: the
+    # refusal must not depend on there being something to sort) and all-untimed lists
+    for n in (1, 2, 3):
+        base = gen_items(rng, n)
+        for pos in range(n):
+            items = [dict(it, kind='nodt') if j == pos else dict(it) for j, it in enumerate(base)]
+            specs.append(('nodt', {'items': items, 'ops': [['conv', 1]]}))
+        specs.append(('nodt', {'items': [dict(it, kind='nodt') for it in base], 'ops': [['conv', 1]]}))
     # F. fixed regression corpus: D18 (open slice must keep a long shape that starts early and
     #    ends after the last-starting shape), duplicate timestamps with distinct ends, exact tie
     HOUR = 3600 * SEC
